@@ -109,6 +109,11 @@ func (y *yangParserEntryAdapter) Navigate(p []string) (xpath.Entry, error) {
 		if err != nil {
 			return newYangParserValueEntry(xpath.NewNodesetDatum([]xutils.XpathNode{}), err), nil
 		}
+		// an entry that is removed by the actual transaction (only its running value is left in the
+		// tree) does not exist for the expression, it is evaluated against the resulting config
+		if !lookedUpEntry.remainsToExist() {
+			return newYangParserValueEntry(xpath.NewNodesetDatum([]xutils.XpathNode{}), fmt.Errorf("%s does not remain to exist", lookedUpEntry.Path())), nil
+		}
 	}
 
 	return newYangParserEntryAdapter(y.ctx, lookedUpEntry), nil
